@@ -1,20 +1,312 @@
 /-
-  Draining a message stream (the development behind C08).  TO BE PROVED: every `sorry` below.
+  Draining a message stream (the development behind C08).
 -/
 import IppModel.Model.Stream
 namespace Ipp
+
+namespace Drain
+
+theorem size_flat (src : Source) : Source.size src = (Source.flat src).length := by
+  induction src with
+  | nil => rfl
+  | cons e r ih => cases e <;> simp [Source.size, Source.flat, ih]
+
+theorem noFault_cons (e : Ev) (r : Source) : noFault (e :: r) = true ↔ (e.isFail = false ∧ noFault r = true) := by
+  simp [noFault]
+
+/-- what one read / poll of a fault-free scripted source may do -/
+def StepOK (src : Source) (r : Option (Except IoKind Bytes)) (src' : Source) : Prop :=
+  noFault src' = true ∧
+  (((r = none ∨ r = some (.error .interrupted)) ∧ Source.flat src' = Source.flat src ∧ src'.length < src.length)
+   ∨ (∃ bs, r = some (.ok bs) ∧ bs ≠ [] ∧ bs ++ Source.flat src' = Source.flat src ∧ src'.length ≤ src.length)
+   ∨ (r = some (.ok []) ∧ Source.flat src = []))
+
+theorem StepOK.weaken {s src src' : Source} {r} (hfl : Source.flat s = Source.flat src) (hl : s.length ≤ src.length)
+    (h : StepOK s r src') : StepOK src r src' := by
+  obtain ⟨h0, h⟩ := h
+  refine ⟨h0, ?_⟩
+  rcases h with ⟨h1, h2, h3⟩ | ⟨bs, h1, h2, h3, h4⟩ | ⟨h1, h2⟩
+  · exact .inl ⟨h1, h2.trans hfl, by omega⟩
+  · exact .inr (.inl ⟨bs, h1, h2, h3.trans hfl, by omega⟩)
+  · exact .inr (.inr ⟨h1, hfl ▸ h2⟩)
+
+theorem srcPoll_spec (n : Nat) (hn : 0 < n) (src : Source) (hf : noFault src = true) :
+    StepOK src (srcPoll n src).1 (srcPoll n src).2 := by
+  obtain ⟨m, rfl⟩ : ∃ m, n = m + 1 := ⟨n - 1, by omega⟩
+  induction src with
+  | nil => exact ⟨rfl, .inr (.inr ⟨rfl, rfl⟩)⟩
+  | cons e rest ih =>
+    rw [noFault_cons] at hf
+    cases e with
+    | data b =>
+      simp only [srcPoll]
+      split
+      · rename_i hb
+        have hb' : b = [] := by simpa using hb
+        subst hb'
+        exact StepOK.weaken (by simp [Source.flat]) (by simp) (ih hf.2)
+      · rename_i hb
+        have hb' : b ≠ [] := by simpa using hb
+        split
+        · exact ⟨hf.2, .inr (.inl ⟨b, rfl, hb', by simp [Source.flat], by simp⟩)⟩
+        · refine ⟨by rw [noFault_cons]; exact ⟨rfl, hf.2⟩, .inr (.inl ⟨b.take (m + 1), rfl, ?_, ?_, by simp⟩)⟩
+          · intro h
+            have := List.take_eq_nil_iff.mp h
+            rcases this with h | h
+            · omega
+            · exact hb' h
+          · simp only [Source.flat, ← List.append_assoc, List.take_append_drop]
+    | pending => exact ⟨hf.2, .inl ⟨.inl rfl, rfl, by simp [srcPoll]⟩⟩
+    | interrupted => exact ⟨hf.2, .inl ⟨.inr rfl, rfl, by simp [srcPoll]⟩⟩
+    | fail k => simp [Ev.isFail] at hf
+
+theorem srcRead_spec (n : Nat) (hn : 0 < n) (src : Source) (hf : noFault src = true) :
+    StepOK src (some (srcRead n src).1) (srcRead n src).2 := by
+  obtain ⟨m, rfl⟩ : ∃ m, n = m + 1 := ⟨n - 1, by omega⟩
+  induction src with
+  | nil => exact ⟨rfl, .inr (.inr ⟨rfl, rfl⟩)⟩
+  | cons e rest ih =>
+    rw [noFault_cons] at hf
+    cases e with
+    | data b =>
+      simp only [srcRead]
+      split
+      · rename_i hb
+        have hb' : b = [] := by simpa using hb
+        subst hb'
+        exact StepOK.weaken (by simp [Source.flat]) (by simp) (ih hf.2)
+      · rename_i hb
+        have hb' : b ≠ [] := by simpa using hb
+        split
+        · exact ⟨hf.2, .inr (.inl ⟨b, rfl, hb', by simp [Source.flat], by simp⟩)⟩
+        · refine ⟨by rw [noFault_cons]; exact ⟨rfl, hf.2⟩, .inr (.inl ⟨b.take (m + 1), rfl, ?_, ?_, by simp⟩)⟩
+          · intro h
+            have := List.take_eq_nil_iff.mp h
+            rcases this with h | h
+            · omega
+            · exact hb' h
+          · simp only [Source.flat, ← List.append_assoc, List.take_append_drop]
+    | pending =>
+      simp only [srcRead]
+      exact StepOK.weaken (by simp [Source.flat]) (by simp) (ih hf.2)
+    | interrupted => exact ⟨hf.2, .inl ⟨.inr rfl, rfl, by simp [srcRead]⟩⟩
+    | fail k => simp [Ev.isFail] at hf
+
+theorem blockOn_spec (n : Nat) (hn : 0 < n) (fuel : Nat) (src : Source) (hf : noFault src = true)
+    (hl : src.length ≤ fuel) :
+    StepOK src (some (Payload.read.blockOn n src fuel).1) (Payload.read.blockOn n src fuel).2 := by
+  induction fuel generalizing src with
+  | zero =>
+    have : src = [] := List.eq_nil_of_length_eq_zero (by omega)
+    subst this
+    exact ⟨rfl, .inr (.inr ⟨rfl, rfl⟩)⟩
+  | succ fuel ih =>
+    have hp := srcPoll_spec n hn src hf
+    unfold Payload.read.blockOn
+    split
+    · rename_i r s heq
+      rw [heq] at hp
+      exact hp
+    · rename_i s heq
+      rw [heq] at hp
+      obtain ⟨h0, h⟩ := hp
+      rcases h with ⟨_, h2, h3⟩ | ⟨bs, h1, _⟩ | ⟨h1, _⟩
+      · exact StepOK.weaken h2 (by simp only at h3 ⊢; omega) (ih s h0 (by simp only at h3; omega))
+      · cases h1
+      · cases h1
+
+theorem allowStd_spec (n : Nat) (hn : 0 < n) (fuel : Nat) (src : Source) (hf : noFault src = true) :
+    StepOK src (some (Payload.poll.allowStd n src fuel).1) (Payload.poll.allowStd n src fuel).2 := by
+  induction fuel generalizing src with
+  | zero => exact srcRead_spec n hn src hf
+  | succ fuel ih =>
+    have hp := srcRead_spec n hn src hf
+    unfold Payload.poll.allowStd
+    split
+    · rename_i s heq
+      rw [heq] at hp
+      obtain ⟨h0, h⟩ := hp
+      rcases h with ⟨_, h2, h3⟩ | ⟨bs, h1, _⟩ | ⟨h1, _⟩
+      · exact StepOK.weaken h2 (by simp only at h3 ⊢; omega) (ih s h0)
+      · cases h1
+      · cases h1
+    · rename_i r s _ heq
+      rw [heq] at hp
+      exact hp
+
+theorem read_spec (n : Nat) (hn : 0 < n) (p : Payload) (hf : noFault p.source = true) :
+    StepOK p.source (some (p.read n).1) (p.read n).2.source := by
+  cases p with
+  | empty => exact ⟨rfl, .inr (.inr ⟨rfl, rfl⟩)⟩
+  | sync src => exact srcRead_spec n hn src hf
+  | async src => exact blockOn_spec n hn src.length src hf (Nat.le_refl _)
+
+theorem poll_spec (n : Nat) (hn : 0 < n) (p : Payload) (hf : noFault p.source = true) :
+    StepOK p.source (p.poll n).1 (p.poll n).2.source := by
+  cases p with
+  | empty => exact ⟨rfl, .inr (.inr ⟨rfl, rfl⟩)⟩
+  | sync src => exact allowStd_spec n hn src.length src hf
+  | async src => exact srcPoll_spec n hn src hf
+
+/-- one step of the consumer on the chain -/
+def step (cons : Consumer) (n : Nat) (c : Chain) : Option (Except IoKind Bytes) × Chain :=
+  match cons with
+  | .blocking => (some (c.read n).1, (c.read n).2)
+  | .async => c.poll n
+
+/-- what remains to be delivered -/
+def out (c : Chain) : Bytes := (if c.doneFirst then [] else c.first) ++ Source.flat c.second.source
+
+def mu (c : Chain) : Nat :=
+  (if c.doneFirst then 0 else c.first.length + 1) + Source.size c.second.source + c.second.source.length
+
+def CStepOK (c : Chain) (r : Option (Except IoKind Bytes)) (c' : Chain) : Prop :=
+  noFault c'.second.source = true ∧
+  (((r = none ∨ r = some (.error .interrupted)) ∧ out c' = out c ∧ mu c' < mu c)
+   ∨ (∃ bs, r = some (.ok bs) ∧ bs ≠ [] ∧ bs ++ out c' = out c ∧ mu c' < mu c)
+   ∨ (r = some (.ok []) ∧ out c = []))
+
+/-- lifting a payload step to the chain once the cursor is exhausted (or already done) -/
+theorem lift_second (first : Bytes) (done : Bool) (p p' : Payload) (r) (hfirst : done = false → first = [])
+    (h : StepOK p.source r p'.source) : CStepOK ⟨first, done, p⟩ r ⟨first, true, p'⟩ := by
+  have hpre : (if done = true then [] else first) = [] := by
+    cases done with
+    | true => rfl
+    | false => simpa using hfirst rfl
+  obtain ⟨h0, h⟩ := h
+  refine ⟨h0, ?_⟩
+  simp only [out, mu, size_flat, hpre, List.nil_append, if_true]
+  rcases h with ⟨h1, h2, h3⟩ | ⟨bs, h1, h2, h3, h4⟩ | ⟨h1, h2⟩
+  · refine .inl ⟨h1, h2, ?_⟩
+    rw [h2]; split <;> omega
+  · refine .inr (.inl ⟨bs, h1, h2, h3, ?_⟩)
+    have hl : bs.length + (Source.flat p'.source).length = (Source.flat p.source).length := by
+      rw [← h3, List.length_append]
+    have : 0 < bs.length := List.length_pos_iff.mpr h2
+    split <;> omega
+  · exact .inr (.inr ⟨h1, h2⟩)
+
+theorem step_spec (cons : Consumer) (n : Nat) (hn : 0 < n) (c : Chain) (hf : noFault c.second.source = true) :
+    CStepOK c (step cons n c).1 (step cons n c).2 := by
+  obtain ⟨first, done, p⟩ := c
+  have hn0 : n ≠ 0 := by omega
+  cases done with
+  | true =>
+    cases cons with
+    | blocking =>
+      simp only [step, Chain.read, Bool.not_true, Bool.false_eq_true, if_false]
+      exact lift_second first true p _ _ (by simp) (read_spec n hn p hf)
+    | async =>
+      simp only [step, Chain.poll, Bool.not_true, Bool.false_eq_true, if_false]
+      exact lift_second first true p _ _ (by simp) (poll_spec n hn p hf)
+  | false =>
+    by_cases hfirst : first = []
+    · subst hfirst
+      cases cons with
+      | blocking =>
+        simp only [step, Chain.read, Bool.not_false, if_true, List.take_nil, List.isEmpty_nil, Bool.true_and,
+          decide_eq_true_eq, hn0, ne_eq, not_false_eq_true]
+        exact lift_second [] false p _ _ (by simp) (read_spec n hn p hf)
+      | async =>
+        simp only [step, Chain.poll, Bool.not_false, if_true, List.take_nil, List.isEmpty_nil, Bool.true_and,
+          decide_eq_true_eq, hn0, ne_eq, not_false_eq_true]
+        exact lift_second [] false p _ _ (by simp) (poll_spec n hn p hf)
+    · have hne : (first.take n).isEmpty = false := by
+        cases first with
+        | nil => exact absurd rfl hfirst
+        | cons a t =>
+          obtain ⟨m, rfl⟩ : ∃ m, n = m + 1 := ⟨n - 1, by omega⟩
+          rfl
+      have hne' : first.take n ≠ [] := by
+        intro h; rw [h] at hne; cases hne
+      have key : CStepOK ⟨first, false, p⟩ (some (.ok (first.take n))) ⟨first.drop n, false, p⟩ := by
+        refine ⟨hf, .inr (.inl ⟨first.take n, rfl, hne', ?_, ?_⟩)⟩
+        · simp only [out, Bool.false_eq_true, if_false, ← List.append_assoc, List.take_append_drop]
+        · simp only [mu, Bool.false_eq_true, if_false, List.length_drop]
+          have : 0 < first.length := List.length_pos_iff.mpr hfirst
+          omega
+      cases cons with
+      | blocking =>
+        simp only [step, Chain.read, Bool.not_false, if_true, hne, Bool.false_and, Bool.false_eq_true, if_false]
+        exact key
+      | async =>
+        simp only [step, Chain.poll, Bool.not_false, if_true, hne, Bool.false_and, Bool.false_eq_true, if_false]
+        exact key
+
+theorem drain_succ (cons : Consumer) (dflt fuel : Nat) (sizes : List Nat) (c : Chain) :
+    drain cons dflt (fuel + 1) sizes c =
+      (match step cons (sizes.headD dflt) c with
+       | (none, c') => drain cons dflt fuel sizes c'
+       | (some (.error .interrupted), c') => drain cons dflt fuel sizes c'
+       | (some (.error k), _) => ([], some k)
+       | (some (.ok bs), c') =>
+         if bs.isEmpty && sizes.headD dflt ≠ 0 then ([], none)
+         else ((bs ++ (drain cons dflt fuel sizes.tail c').1), (drain cons dflt fuel sizes.tail c').2)) := by
+  cases cons <;> rfl
+
+theorem pos_headD (sizes : List Nat) (dflt : Nat) (hd : 0 < dflt)
+    (hs : sizes.all (fun n => decide (0 < n)) = true) : 0 < sizes.headD dflt := by
+  cases sizes with
+  | nil => exact hd
+  | cons a t => simp at hs; exact hs.1
+
+theorem pos_tail (sizes : List Nat) (hs : sizes.all (fun n => decide (0 < n)) = true) :
+    sizes.tail.all (fun n => decide (0 < n)) = true := by
+  cases sizes with
+  | nil => rfl
+  | cons a t => simp at hs ⊢; exact hs.2
+
+/-- the invariant: from any state of the chain, with enough fuel, exactly the outstanding bytes are delivered -/
+theorem drain_inv (cons : Consumer) (dflt : Nat) (hd : 0 < dflt) (fuel : Nat) :
+    ∀ (sizes : List Nat) (c : Chain), sizes.all (fun n => decide (0 < n)) = true →
+      noFault c.second.source = true → mu c + 1 ≤ fuel →
+      drain cons dflt fuel sizes c = (out c, none) := by
+  induction fuel with
+  | zero => intro _ _ _ _ h; omega
+  | succ fuel ih =>
+    intro sizes c hs hf hm
+    have hn := pos_headD sizes dflt hd hs
+    have hn0 : sizes.headD dflt ≠ 0 := by omega
+    have hsp := step_spec cons (sizes.headD dflt) hn c hf
+    rw [drain_succ]
+    generalize step cons (sizes.headD dflt) c = rc at hsp
+    obtain ⟨r, c'⟩ := rc
+    obtain ⟨h0, h⟩ := hsp
+    rcases h with ⟨h1, h2, h3⟩ | ⟨bs, h1, h2, h3, h4⟩ | ⟨h1, h2⟩
+    · simp only at h1 h2 h3
+      rcases h1 with rfl | rfl
+      · simp only
+        rw [ih sizes c' hs h0 (by omega), h2]
+      · simp only
+        rw [ih sizes c' hs h0 (by omega), h2]
+    · simp only at h1 h3 h4
+      subst h1
+      have hbe : bs.isEmpty = false := by
+        cases bs with
+        | nil => exact absurd rfl h2
+        | cons _ _ => rfl
+      simp only [hbe, Bool.false_and, Bool.false_eq_true, if_false]
+      rw [ih sizes.tail c' (pos_tail sizes hs) h0 (by omega), h3]
+    · simp only at h1
+      subst h1
+      simp only [List.isEmpty_nil, Bool.true_and, decide_eq_true_eq, hn0, ne_eq, not_false_eq_true, if_true, h2]
+
+end Drain
+
+open Drain in
+/-- more fuel changes nothing -/
+theorem drain_fuel_irrelevant (cons : Consumer) (hdr : Bytes) (pay : Payload) (sizes : List Nat) (dflt : Nat) (k : Nat)
+    (hd : 0 < dflt) (hs : sizes.all (fun n => decide (0 < n)) = true) (hf : noFault pay.source = true) :
+    drain cons dflt (drainFuel hdr pay sizes + k) sizes ⟨hdr, false, pay⟩ = (hdr ++ Source.flat pay.source, none) := by
+  have h := drain_inv cons dflt hd (drainFuel hdr pay sizes + k) sizes ⟨hdr, false, pay⟩ hs hf
+    (by simp only [mu, drainFuel, Bool.false_eq_true, if_false]; omega)
+  simpa [out] using h
 
 /-- every consumer, every payload kind, every sequence of positive buffer sizes: the drained bytes are the
     header-and-attributes bytes followed by exactly the payload's data, then end of stream -/
 theorem drain_content (cons : Consumer) (hdr : Bytes) (pay : Payload) (sizes : List Nat) (dflt : Nat)
     (hd : 0 < dflt) (hs : sizes.all (fun n => decide (0 < n)) = true) (hf : noFault pay.source = true) :
-    drain cons dflt (drainFuel hdr pay sizes) sizes ⟨hdr, false, pay⟩ = (hdr ++ Source.flat pay.source, none) := by
-  sorry
-
-/-- more fuel changes nothing -/
-theorem drain_fuel_irrelevant (cons : Consumer) (hdr : Bytes) (pay : Payload) (sizes : List Nat) (dflt : Nat) (k : Nat)
-    (hd : 0 < dflt) (hs : sizes.all (fun n => decide (0 < n)) = true) (hf : noFault pay.source = true) :
-    drain cons dflt (drainFuel hdr pay sizes + k) sizes ⟨hdr, false, pay⟩ = (hdr ++ Source.flat pay.source, none) := by
-  sorry
+    drain cons dflt (drainFuel hdr pay sizes) sizes ⟨hdr, false, pay⟩ = (hdr ++ Source.flat pay.source, none) :=
+  drain_fuel_irrelevant cons hdr pay sizes dflt 0 hd hs hf
 
 end Ipp
